@@ -18,7 +18,7 @@ CTORS = ["empty", "fromFiber", "fromUncompressed", "fromRandom", "fromYAMLfile",
 
 def gen(seed, tier):
     rng = random.Random(seed)
-    n_ctor = 60 if tier == "quick" else 1500
+    n_ctor = 200 if tier == "quick" else 1500
     for ctor in CTORS:
         for i in range(n_ctor):
             d = rng.choice([1, 2, 2, 3, 3, 4] if ctor in ("swizzle", "swap", "flatten", "unflatten", "merge") else [1, 2, 2, 3, 3])
@@ -31,7 +31,7 @@ def gen(seed, tier):
                    # which tensor is observed: the result, or the tensor the result was made from (it must
                    # still mirror its own tree after having served as an operand)
                    "observe": rng.choice(["result", "result", "source"])}
-    n_hist = 2500 if tier == "quick" else 40000
+    n_hist = 6000 if tier == "quick" else 40000
     for i in range(n_hist):
         d = rng.choice([2, 2, 3])
         dflt = rng.choice([0, 0, 7])
